@@ -184,7 +184,7 @@ def run(net, mode, sn):
         if mode == "dc":
             pp.rundcpp(net)
         else:
-            pp.runpp(net, tolerance_mva=pf_tol(sn), max_iteration=40, calculate_voltage_angles=True, voltage_depend_loads=True)
+            pp.runpp(net, tolerance_mva=pf_tol(float(net.sn_mva)), max_iteration=40, calculate_voltage_angles=True, voltage_depend_loads=True)
 
 
 def _cmp(res, sig, what, a, b, atol, rtol=1e-7, angle=False):
